@@ -532,6 +532,31 @@ out:
 }
 
 /**
+ * A fragment whose header announces more payload (plus backend metadata)
+ * than fragment_len leaves room for cannot be used by decode or
+ * reconstruct: everything downstream trusts those sizes.  Headers that are
+ * invalid or in the other byte order are refused by the header checks.
+ */
+static int fragments_exceed_len(char **fragments, int num_fragments,
+                                uint64_t fragment_len)
+{
+    int i;
+
+    if (fragment_len < sizeof(fragment_header_t))
+        return 0;
+    for (i = 0; i < num_fragments; i++) {
+        fragment_header_t *header = (fragment_header_t *) fragments[i];
+        if (header->magic != LIBERASURECODE_FRAG_HEADER_MAGIC)
+            continue;
+        if ((uint64_t) header->meta.size +
+            (uint64_t) header->meta.frag_backend_metadata_size >
+            fragment_len - sizeof(fragment_header_t))
+            return 1;
+    }
+    return 0;
+}
+
+/**
  * Cleanup structures allocated by librasurecode_decode
  *
  * The caller has no context, so cannot safely free memory
@@ -618,6 +643,13 @@ int liberasurecode_decode(int desc,
 
     k = instance->args.uargs.k;
     m = instance->args.uargs.m;
+
+    if (fragments_exceed_len(available_fragments, num_fragments,
+                             fragment_len)) {
+        log_error("A fragment header claims more than fragment_len!");
+        ret = -EBADHEADER;
+        goto out;
+    }
 
     if (num_fragments < k) {
         log_error("Not enough fragments to decode, got %d, need %d!",
@@ -858,6 +890,13 @@ int liberasurecode_reconstruct_fragment(int desc,
 
     k = instance->args.uargs.k;
     m = instance->args.uargs.m;
+
+    if (fragments_exceed_len(available_fragments, num_fragments,
+                             fragment_len)) {
+        log_error("A fragment header claims more than fragment_len!");
+        ret = -EBADHEADER;
+        goto out;
+    }
 
     if (fragment_len < sizeof(fragment_header_t)) {
         log_error("Fragments not long enough to include headers! "
